@@ -1,32 +1,116 @@
 package main
 
-// Synthetic struct types with symbolic field names / tag texts (used by the
-// type-definition properties C08 and C14). Filled in by vrt.SymStruct.
+// Synthetic struct types with symbolic tag texts (type-definition properties
+// C08 and C14): created by vrt.StructOf. Layout, kind and field types come
+// from a real go/types struct; the per-field tag values are (possibly
+// symbolic) strings.
 
-import "go/types"
+import (
+	"go/token"
+	"go/types"
 
-type SynthField struct {
-	Name   Value // StringVal (possibly symbolic bytes)
-	Type   types.Type
-	Tag    SynthTag
-	Offset int64
-}
+	"golang.org/x/tools/go/ssa"
+)
 
 type SynthStruct struct {
-	Name   string
-	Fields []SynthField
-	Size   int64
+	Name string
+	St   *types.Struct
+	Tags []SynthTag
 }
 
-func (s *SynthStruct) Underlying() types.Type { return s }
-func (s *SynthStruct) String() string         { return "synth." + s.Name }
+func (s *SynthStruct) Underlying() types.Type { return s.St }
+func (s *SynthStruct) String() string         { return "struct{...}" }
 
 // SynthTag is a struct tag whose per-key values are (possibly symbolic) strings.
 type SynthTag struct {
 	Keys map[string]Value
 }
 
+type synthTagAux struct{ tag SynthTag }
+
+func (a *synthTagAux) CloneAux() Aux { return a }
+
+func (m *Machine) synthTagOf(v Value) (SynthTag, bool) {
+	sv, ok := v.(StringVal)
+	if !ok || sv.P.ID == 0 || sv.P.Off != 0 {
+		return SynthTag{}, false
+	}
+	a, ok := m.w.AuxR(sv.P).(*synthTagAux)
+	if !ok {
+		return SynthTag{}, false
+	}
+	return a.tag, true
+}
+
 func (m *Machine) synthTypeMethod(st *SynthStruct, name string, args []Value) Value {
-	m.unsupported("synthetic struct type method %s", name)
-	return nil
+	switch name {
+	case "Name", "PkgPath":
+		return StringVal{}
+	case "String":
+		return m.constString("struct {...}")
+	case "Field":
+		i := m.constInt(args[0].(*Term), "Field index")
+		if i < 0 || i >= int64(st.St.NumFields()) {
+			m.raise(fault("panic", "reflect: Field index out of bounds"))
+		}
+		f := st.St.Field(int(i))
+		// the tag travels as a 1-byte string whose backing object carries the
+		// per-key values (it may be stored to memory like any string)
+		o := m.w.Alloc(1, "synthetic struct tag")
+		o.slots[0] = Slot{kind: slotScalar, size: 1, t: m.st.Const(8, '?')}
+		tp := Ptr{ID: o.id}
+		m.w.SetAux(tp, &synthTagAux{tag: st.Tags[i]})
+		return m.structFieldValue(f.Name(), "", f.Type(), StringVal{P: tp, Len: 1}, fieldOffsets(st.St)[i], int(i), false)
+	}
+	return m.reflectTypeMethod(st.St, name, args)
+}
+
+func registerSynth(P *Program) {
+	P.intr[vrtPkg+"StructOf"] = func(m *Machine, fn *ssa.Function, args []Value) Value {
+		specs := args[0].(SliceVal)
+		specT := fn.Signature.Params().At(0).Type().Underlying().(*types.Slice).Elem()
+		sst := specT.Underlying().(*types.Struct)
+		es := sizeof(specT)
+		var vars []*types.Var
+		var tags []SynthTag
+		for i := int64(0); i < specs.Len; i++ {
+			sv := m.Load(specT, Ptr{ID: specs.P.ID, Off: specs.P.Off + i*es}).(StructVal)
+			var name string
+			var ft types.Type
+			tag := SynthTag{Keys: map[string]Value{}}
+			var hasP, hasJ bool
+			var ptxt, jtxt Value
+			for k := 0; k < sst.NumFields(); k++ {
+				switch sst.Field(k).Name() {
+				case "Name":
+					name = m.mustGoString(sv[k], "field name")
+				case "Type":
+					iv := sv[k].(IfaceVal)
+					tt, ok := iv.V.(TypeTok)
+					if !ok {
+						m.unsupported("StructOf: field type is not a reflect.Type")
+					}
+					ft = tt.T
+				case "Plenc":
+					ptxt = sv[k]
+				case "JSON":
+					jtxt = sv[k]
+				case "HasPlenc":
+					hasP = sv[k].(*Term).IsTrue()
+				case "HasJSON":
+					hasJ = sv[k].(*Term).IsTrue()
+				}
+			}
+			if hasP {
+				tag.Keys["plenc"] = ptxt
+			}
+			if hasJ {
+				tag.Keys["json"] = jtxt
+			}
+			vars = append(vars, types.NewField(token.NoPos, nil, name, ft, false))
+			tags = append(tags, tag)
+		}
+		st := &SynthStruct{Name: "synth", St: types.NewStruct(vars, nil), Tags: tags}
+		return m.typeIface(st)
+	}
 }
